@@ -7,9 +7,23 @@ for f in sorted(glob.glob('/verif/seeded/*/meta.json')):
     c = m['check_quick']
     how = 'not detected'
     if c['detected']:
-        how = ('solver counterexample in %s' % c.get('first_such_obligation', '?')) if c.get('obligations_with_solver_counterexample') else 'concrete harness input only'
+        fo = c.get('first_such_obligation', '') or ''
+        if ':' not in fo:                      # (older meta files kept only the last token of the row)
+            fo = ''
+        nso = c.get('obligations_with_solver_counterexample')
+        how = ('solver counterexample in %d obligation(s)%s' % (nso, (', e.g. ' + fo) if fo else '')) if nso else 'concrete harness input only'
         if 'obligations_with_solver_counterexample' not in c:
             how = 'detected (' + (c.get('first', '').strip()[:70]) + ')'
     rows.append('| %s | %s | %s | %s |' % (m['name'], m['property'], m.get('needs_to_manifest', '')[:110], how))
-print('| seeded change | property | needs to manifest | quick check on the changed tree |\n|---|---|---|---|')
-print('\n'.join(rows))
+table = '| seeded change | property | needs to manifest | quick check on the changed tree |\n|---|---|---|---|\n' + '\n'.join(rows)
+import sys
+if '--into-design' in sys.argv:
+    p = '/verif/DESIGN.md'
+    s = open(p).read()
+    a = s.index('<!-- SEEDTABLE:BEGIN')
+    a = s.index('\n', a) + 1
+    b = s.index('<!-- SEEDTABLE:END -->')
+    open(p, 'w').write(s[:a] + table + '\n' + s[b:])
+    print('DESIGN.md updated: %d seeds, %d detected' % (len(rows), sum(1 for r in rows if 'not detected' not in r)))
+else:
+    print(table)
